@@ -81,18 +81,18 @@ macro_rules! range_harnesses {
                 let mut la = l0 + scale * e.cum as u128; let mut ra = scale * e.prob.get() as u128; let mut na = n0;
                 let renorm = ra < (1u128 << (SB - WB));
                 if renorm { la <<= WB; ra <<= WB; na += 1; }
+                // format-independent requirement of any decodable range coder (lemma_nested): the new interval lies
+                // inside the old one (compared at the new resolution); violated e.g. when held-back words are lost
+                let r0 = st.range().get() as u128; let r1 = st1.range().get() as u128;
+                assert!(n1 >= n0 && n1 <= n0 + 1, "C02/C11/C12/C06: a step must emit or hold back zero or one further word");
+                if n1 >= n0 && n1 <= n0 + 1 {
+                    let sh = WB * (n1 - n0) as u32;
+                    assert!((l0 << sh) <= l1 && l1 + r1 <= ((l0 + r0) << sh), "C02/C11/C06: interval after the step is not nested in the interval before the step");
+                }
                 assert!(st1.range().get() as u128 == ra, "C06: range after encode differs from interval spec");
                 assert!(n1 == na, "C06: number of emitted+held-back words differs from interval spec");
                 assert!(l1 == la, "C06: lower/emitted words differ from interval spec");
                 assert!(inv_ok(&st1, &sit1), "C06: range encoder representation invariant lost");
-                // format-independent requirement of any decodable range coder (lemma_nested): the new interval lies
-                // inside the old one (compared at the new resolution); violated e.g. when held-back words are lost
-                let r0 = st.range().get() as u128; let r1 = st1.range().get() as u128;
-                assert!(n1 >= n0 && n1 <= n0 + 1, "C02/C11/C12: a step must emit or hold back zero or one further word");
-                if n1 >= n0 && n1 <= n0 + 1 {
-                    let sh = WB * (n1 - n0) as u32;
-                    assert!((l0 << sh) <= l1 && l1 + r1 <= ((l0 + r0) << sh), "C02/C11: interval after the step is not nested in the interval before the step");
-                }
                 cover!(renorm, "renormalisation");
                 cover!(matches!(sit, EncoderSituation::Normal) && matches!(sit1, EncoderSituation::Inverted(..)), "normal -> inverted");
                 cover!(matches!(sit, EncoderSituation::Inverted(..)) && matches!(sit1, EncoderSituation::Normal) && sink.n > 0, "inverted -> normal");
@@ -156,12 +156,13 @@ macro_rules! range_harnesses {
                     Ok(s) => {
                         assert!(d < (sc << P), "C10: quantile out of range accepted");
                         let inside = d >= sc * e.cum as u128 && d < sc * (e.cum as u128 + e.prob.get() as u128);
-                        assert!((s == e.sym) == inside, "C10: range decoder returned a symbol whose interval does not hold the quantile");
+                        let grp = group(2);
+                        if grp == 1 { assert!((s == e.sym) == inside, "C06: range decoder returned a symbol whose interval does not hold the quantile of the published step"); }
                         assert!(s == e.sym || s == !e.sym, "C10: symbol outside the model");
                         let (b, st1, p1) = dec.into_raw_parts();
                         assert!(p1.wrapping_sub(st1.lower()) < st1.range().get(), "C10/C02: decoder invariant point-lower < range lost");
                         assert!((st1.range().get() >> (SB - WB)) != 0, "C10/C02: decoder invariant range >= 2^(sb-wb) lost");
-                        if inside {
+                        if inside && grp == 1 {
                             // C06: decoder mirrors the encoder's interval step
                             let r1 = scale as u128 * e.prob.get() as u128;
                             let l1 = lower.wrapping_add(scale.wrapping_mul(e.cum as S));
@@ -195,10 +196,13 @@ macro_rules! range_harnesses {
                 let npend = if let EncoderSituation::Inverted(n, _) = sit { n.get() } else { 0 };
                 let enc = Enc::from_raw_parts(Sink::default(), st, sit);
                 let nwords = enc.num_words();
-                let sink = match enc.into_compressed() { Ok(s) => s, Err(_) => { assert!(false, "C11: seal failed on a non-full sink"); return; } };
-                assert!(nwords == sink.n, "C18: num_words differs from the number of words sealing writes");
+                let sink = match enc.into_compressed() { Ok(s) => s, Err(_) => { assert!(false, "C11/C02/C06/C18/C12: seal failed on a non-full sink"); return; } };
+                // independent assertion groups (see kx::group): 0 size report, 1 sealing rule, 2 containment, 3 end of stream
+                let grp = group(4);
+                if grp == 0 { assert!(nwords == sink.n, "C18: num_words differs from the number of words sealing writes"); return; }
+                if sink.n < npend + 1 || sink.n > npend + 2 { assert!(false, "C12/C11/C02/C06: seal must add one or two words to the pending ones"); return; }
                 let nseal = sink.n - npend;
-                assert!(nseal >= 1 && nseal <= 2, "C12/C11: seal must add one or two words");
+                if grp == 1
                 // C06: the documented sealing rule, as an independent reference: pending words resolved by the carry of
                 // point = lower + 2^(sb-wb) - 1; then the top word of point; then one zero word iff the top word of
                 // lower + range (exclusive end) equals it
@@ -215,6 +219,7 @@ macro_rules! range_harnesses {
                     if (st.lower().wrapping_add(st.range().get()) >> (SB - WB)) as W == pw { exp[k] = 0; k += 1; }
                     assert!(sink.n == k, "C06: number of sealed words differs from the documented sealing rule");
                     let mut i = 0; while i < k && i < sink.n { assert!(sink.buf[i] == exp[i], "C06: sealed words differ from the documented sealing rule"); i += 1; }
+                    return;
                 }
                 let mut buf = sink.buf;
                 // arbitrary continuation after the sealed words
@@ -222,15 +227,17 @@ macro_rules! range_harnesses {
                 // X = value(pending words) * 2^sb + window of NW words after them
                 let mut x: u128 = 0; let mut i = 0; while i < npend + NW { x = (x << WB) | buf[i] as u128; i += 1; }
                 let (l, _) = abs_l(&[], &sit, st.lower());
-                if nseal == 1 {
-                    assert!(l <= x && x < l + st.range().get() as u128, "C11/C02: one seal word followed by a suffix leaves the encoder's interval");
-                } else {
-                    assert!(l <= x && x < l + st.range().get() as u128, "C11/C02: two seal words followed by a suffix leave the encoder's interval");
+                if grp == 2 {
+                    if nseal == 1 {
+                        assert!(l <= x && x < l + st.range().get() as u128, "C11/C02: one seal word followed by a suffix leaves the encoder's interval");
+                    } else {
+                        assert!(l <= x && x < l + st.range().get() as u128, "C11/C02: two seal words followed by a suffix leave the encoder's interval");
+                    }
                 }
                 // C02/C18 (end of stream): the decoder that has consumed exactly this message - same (lower, range) as the
                 // encoder (coupling), window = the sealed words after the pending ones, zero padded, backend exhausted -
                 // must report maybe_exhausted
-                {
+                if grp == 3 {
                     let mut x0: u128 = 0; let mut i = npend; while i < npend + NW { x0 = (x0 << WB) | (if i < sink.n { sink.buf[i] as u128 } else { 0 }); i += 1; }
                     let mut end = Sink::default(); end.pos = 0; end.n = 0;
                     match Dec::from_raw_parts(end, st, x0 as S) {
@@ -365,7 +372,8 @@ pub fn guard_u8_u16() {
     let mut enc = RangeEncoder::<u8, u16, Vec<u8>>::from_raw_parts(v, st, sit);
     let twin = enc.clone().into_compressed().unwrap();
     let nw = enc.num_words();
-    assert!(nw == twin.len(), "C18: RangeEncoder::num_words differs from the length of what sealing returns");
+    let grp = group(2);
+    if grp == 0 { assert!(nw == twin.len(), "C18: RangeEncoder::num_words differs from the length of what sealing returns"); return; }
     {
         let g = enc.get_compressed();
         assert!(g.len() == twin.len(), "C08: range encoder view has a different length than finishing the encoder would return");
